@@ -176,9 +176,11 @@ class Ctx:
         r = smt.prove(self.hyps, cond, timeout_ms=self.timeout_ms, tag=name.split("[")[0], prefer=self.prefer)
         model = r.model
         if r.status == "sat" and robust is not None:
-            r2 = smt.check_sat(self.hyps + [robust], timeout_ms=min(self.timeout_ms, 10000), tag=name.split("[")[0] + ":robust")
-            if r2.status == "sat":
-                model = r2.model
+            for rb in (robust if isinstance(robust, list) else [robust]):
+                r2 = smt.check_sat(self.hyps + [rb], timeout_ms=min(self.timeout_ms, 10000), tag=name.split("[")[0] + ":robust")
+                if r2.status == "sat":
+                    model = r2.model
+                    break
         if r.status == "unknown":
             r3 = smt.find_model_by_concretisation(self.hyps, S.Not(cond), self.rng, tag=name.split("[")[0])
             if r3.status == "sat":
@@ -217,12 +219,12 @@ class Ctx:
             self.eq(f"{name}[{','.join(map(str, idx))}]", impl_a[idx], ref_a[idx])
 
     def le(self, name, a, b):
-        """claim a <= b"""
+        """claim a <= b (replay: violated when a exceeds b by more than the relative rounding tolerance)"""
         if not self.sym:
             if self.target is not None and name != self.target:
                 return
             a, b = float(a), float(b)
-            scale = max(1.0, abs(a), abs(b))
+            scale = max(abs(a), abs(b))
             bad = not (a <= b + self.tol * scale)
             if bad:
                 self.replay_result = (True, f"{name}: {a!r} > {b!r}")
@@ -231,7 +233,8 @@ class Ctx:
             return
         a, b = S.lift(a), S.lift(b)
         d = a - b
-        robust = S.And(d >= Fraction(1, 100), *[S.And(v >= -50, v <= 50) for v in S.free_vars([d]) if v.sort == S.REAL and v.args[0] != S.PI_NAME])
+        fv = [v for v in S.free_vars([d]) if v.sort == S.REAL and v.args[0] != S.PI_NAME]
+        robust = [S.And(d >= S.sabs(b) * Fraction(1, k), d > 0, *[S.And(v >= -1000, v <= 1000) for v in fv]) for k in (100, 10**6, 10**9)]
         self.claim(name, a <= b, robust=robust)
 
     def same(self, name, after, before):
@@ -559,3 +562,82 @@ def sopht_modules():
 
 def np_real_t(name):
     return np.float32 if name == "float32" else np.float64
+
+
+# =========================================================================================
+# path exploration for data-dependent control flow of the real code (DESIGN 4.4)
+# =========================================================================================
+class PathLimit(Exception):
+    pass
+
+
+def explore(ctx, fn, max_paths=64, tag="path"):
+    """Run fn() once per feasible decision sequence.  Inside fn, `bool(sym)`, `int(sym)` and
+    `sym.__index__()` are answered from the current path; ctx.hyps carries the path condition.
+    Returns the list of (decisions, return value)."""
+    if not ctx.sym:
+        return [((), fn())]
+    results = []
+    todo = [[]]
+    base_hyps = list(ctx.hyps)
+    n = 0
+    while todo:
+        prefix = todo.pop()
+        n += 1
+        if n > max_paths:
+            raise PathLimit(f"more than {max_paths} paths")
+        state = {"pos": 0, "taken": []}
+
+        def feasible(cond):
+            r = smt.check_sat(ctx.hyps + [cond], timeout_ms=10000, tag=tag + ":feasible", want_model=True)
+            if r.status == "unknown":
+                r = smt.check_sat(ctx.hyps + [cond], timeout_ms=20000, tag=tag + ":feasible-nlsat", tactic="qfnra-nlsat")
+            if r.status == "unknown":
+                raise S.SymError("path feasibility unknown")
+            return r
+
+        def decide_bool(cond):
+            i = state["pos"]
+            state["pos"] += 1
+            if i < len(prefix):
+                val = prefix[i]
+            else:
+                ft = feasible(cond).status == "sat"
+                ff = feasible(S.Not(cond)).status == "sat"
+                if ft and ff:
+                    val = True
+                    todo.append(state["taken"] + [False])
+                elif ft:
+                    val = True
+                elif ff:
+                    val = False
+                else:
+                    raise S.SymError("infeasible path reached (contradictory assumptions)")
+            state["taken"].append(val)
+            ctx.hyps.append(cond if val else S.Not(cond))
+            return val
+
+        def decide_int(term):
+            # enumerate feasible integer values one at a time: fork on term == v
+            while True:
+                r = feasible(S.TRUE)
+                m = r.model
+                env = {v: m.get(v, Fraction(0)) for v in S.free_vars([term])}
+                try:
+                    val = S.evaluate_exact([term], env)[term.hid]
+                except S.SymError:
+                    env2 = {v: float(x) for v, x in env.items()}
+                    val = Fraction(S.evaluate([term], env2)[term.hid])
+                v = int(val) if val.denominator == 1 else int(val // 1)
+                if decide_bool(S._cmp("eq", term, S.const(v))):
+                    return v
+
+        old = (S.HOOKS.decide_bool, S.HOOKS.decide_int)
+        S.HOOKS.decide_bool, S.HOOKS.decide_int = decide_bool, decide_int
+        try:
+            ret = fn()
+        finally:
+            S.HOOKS.decide_bool, S.HOOKS.decide_int = old
+            ctx.hyps[:] = base_hyps
+        results.append((tuple(state["taken"]), ret))
+    return results
